@@ -537,7 +537,7 @@ func runC05(c *Ctx) {
 	// R5.7 ---------------------------------------------------------------
 	c.Rule("R5.7", func() {
 		c.Floor("R5.7", 3)
-		do := c.Func("lintcmd/runner", "(*subrunner).do")
+		_, do := keyFunctions(c, c.Func("lintcmd/runner", "(*subrunner).do")) // the function that looks the key up (do itself today)
 		gcf := c.Func("lintcmd/runner", "getCachedFiles")
 		var lookups []*ssa.Call
 		for _, ci := range CallsTo(do, false, Module+"/lintcmd/runner.getCachedFiles") {
@@ -546,7 +546,7 @@ func runC05(c *Ctx) {
 			}
 		}
 		if len(lookups) != 1 {
-			c.Undecided("expected exactly one getCachedFiles call in (*subrunner).do, found %d", len(lookups))
+			c.Undecided("expected exactly one getCachedFiles call in %s, found %d", do, len(lookups))
 		}
 		lk := lookups[0]
 		isLk := func(v ssa.Value) bool { return v == ssa.Value(lk) }
